@@ -8,3 +8,4 @@ func raceDisable()                 {}
 func raceEnable()                  {}
 func RaceAcquire(p unsafe.Pointer) {}
 func RaceRelease(p unsafe.Pointer) {}
+const RaceEnabled = false
